@@ -38,12 +38,35 @@ def patterns_for(i, rng, count):
     return out
 
 
+def snake(name):
+    import re
+    return re.sub(r"(?<=[a-z0-9])([A-Z])", lambda m: "_" + m.group(1).lower(), name).lower()
+
+
 def make_package(i, rng, count):
     defs = []
     for k, pat in enumerate(patterns_for(i, rng, count)):
         steps = [("s%d" % j, M.Prim(rng.choice(["int32", "string", "uint8"])), st) for j, st in enumerate(pat)]
         defs.append(M.Protocol("Pat%d" % k, steps))
-    return M.Package("Sketch", "pkg", {"model.yml": defs})
+    pkg = M.Package("Sketch", "pkg", {"model.yml": defs})
+    hv = rng.fork("history")
+    if hv.chance(0.4):
+        # the package has a history: in a previous version some of its protocols lacked one or two of their stream steps - steps
+        # that were since inserted *in front of* steps that already existed (a compatible change for a stream step).  What the
+        # generated API enforces is the order of the current model, whatever the tool worked out about older ones.
+        import copy
+        old = copy.deepcopy(pkg)
+        changed = 0
+        for d in old.files["model.yml"]:
+            cands = [j for j, (_, _, st) in enumerate(d.steps[:-1]) if st]
+            if cands and len(d.steps) > 1 and hv.chance(0.6):
+                for j in sorted(hv.sample(cands, min(len(cands), hv.randint(1, 2))), reverse=True):
+                    d.steps.pop(j)
+                    changed += 1
+        if changed:
+            old.dirname, old.versions, old.targets = "pkg_v0", [], {}
+            pkg.versions = [("v0", old)]
+    return pkg
 
 
 # ------------------------------------------------------------------------------------------
@@ -710,7 +733,23 @@ def model_task(task, ybin, root):
         env, ns = model.env, pkg.namespace
         codec = R.Codec(env)
         H = 12 if quick else 40
+        if pkg.versions:
+            stats["models_with_a_previous_version(steps inserted since)"] = 1
+        # the generated Python API has one step method per declared step, in the declared order, under the declared name
+        # (a protocol for which it has not cannot be driven through call histories: it is reported and left at that)
+        api_broken = set()
         for proto in model.protocols():
+            for fmt in ("binary", "ndjson"):
+                for side, prefix in (("Writer", "write_"), ("Reader", "read_")):
+                    got = [m.__name__ for m in model.step_methods(model.cls(proto, fmt, side).__new__(model.cls(proto, fmt, side)), prefix)]
+                    want = [prefix + snake(n) for n, _, _ in proto.steps]
+                    if got != want:
+                        api_broken.add(proto.name)
+                        viols.append(({"class": "generated_api_does_not_follow_the_declared_steps", "api": "python_" + side.lower(), "format": fmt},
+                                      doc(model, proto, {"seed": seed, "i": i}, "python_" + side.lower(), [], [], "declared %r, generated %r" % (want, got))))
+        for proto in model.protocols():
+            if proto.name in api_broken:
+                continue
             streams = [s for _, _, s in proto.steps]
             n = len(streams)
             pr = rng.fork(proto.name)
@@ -958,6 +997,12 @@ def replay_doc(d, ybin, root):
     model = P.PyModel(pkg, ybin, root, want_cpp=want_cpp, cpp_opts=C.CPP_OPTS)
     try:
         proto = [p for p in model.protocols() if p.name == d["protocol"]][0]
+        if d["violation"]["class"] == "generated_api_does_not_follow_the_declared_steps":
+            side, prefix = ("Writer", "write_") if d["api"] == "python_writer" else ("Reader", "read_")
+            cls_ = model.cls(proto, d["violation"].get("format", "binary"), side)
+            got = [m.__name__ for m in model.step_methods(cls_.__new__(cls_), prefix)]
+            want = [prefix + snake(n) for n, _, _ in proto.steps]
+            return got != want, "declared %r, generated %r" % (want, got)
         streams = [s for _, _, s in proto.steps]
         env, ns = model.env, pkg.namespace
         codec = R.Codec(env)
